@@ -977,6 +977,126 @@ func ruleDriver(p *Program, r *Reporter) {
 			}
 		}
 		r.Check(got["Type"] && got["Inspect"] && got["True"], base+"/report shows type, value and truth of Execute's result", p.Pos(ex.Pos()), "Type(), Inspect() and True() of the result", fmt.Sprintf("the report does not call Type(), Inspect() and True() on Execute's result (calls: %v)", got))
+		// the report is printed on every path that follows a successful
+		// Execute: nothing (a failing conversion of the result to JSON, say)
+		// ends the command before the type, value and truth were written
+		{
+			var resVal ssa.Value
+			for _, ref := range liveRefs(ex) {
+				if e, ok := ref.(*ssa.Extract); ok && e.Index == 0 {
+					resVal = e
+				}
+			}
+			fromResult := func(v ssa.Value) string {
+				for depth := 0; depth < 6; depth++ {
+					switch x := v.(type) {
+					case *ssa.MakeInterface:
+						v = x.X
+						continue
+					case *ssa.ChangeType:
+						v = x.X
+						continue
+					case *ssa.Convert:
+						v = x.X
+						continue
+					case *ssa.Call:
+						if x.Call.IsInvoke() && x.Call.Value == resVal {
+							return x.Call.Method.Name()
+						}
+					}
+					break
+				}
+				return ""
+			}
+			printBlocks := map[string][]*ssa.BasicBlock{}
+			for _, b := range fn.Blocks {
+				for _, ins := range b.Instrs {
+					c, ok := ins.(*ssa.Call)
+					if !ok || c.Call.StaticCallee() == nil || c.Call.StaticCallee().Pkg == nil || c.Call.StaticCallee().Pkg.Pkg.Path() != "fmt" || len(c.Call.Args) == 0 {
+						continue
+					}
+					if n := c.Call.StaticCallee().Name(); !strings.HasPrefix(n, "Print") && !strings.HasPrefix(n, "Fprint") && !strings.HasPrefix(n, "Sprint") {
+						continue
+					}
+					elems, known := varargsOf(c.Call.Args[len(c.Call.Args)-1])
+					if !known {
+						continue
+					}
+					for _, e := range elems {
+						if e == nil {
+							continue
+						}
+						if m := fromResult(e); m != "" {
+							printBlocks[m] = append(printBlocks[m], b)
+						}
+					}
+				}
+			}
+			key := base + "/the report is printed on every path after a successful Execute"
+			if resVal == nil || len(printBlocks["Type"]) == 0 || len(printBlocks["Inspect"]) == 0 || len(printBlocks["True"]) == 0 {
+				r.Undecided(key, p.Pos(ex.Pos()), "cannot find the print call(s) that receive Type(), Inspect() and True() of Execute's result")
+			} else {
+				// the successor taken when Execute's error is nil
+				var start *ssa.BasicBlock
+				for _, ref := range liveRefs(ex) {
+					e, ok := ref.(*ssa.Extract)
+					if !ok || e.Index != 1 {
+						continue
+					}
+					for _, r2 := range liveRefs(e) {
+						if bo, ok := r2.(*ssa.BinOp); ok && (bo.Op == token.NEQ || bo.Op == token.EQL) && (isNilConst(bo.X) || isNilConst(bo.Y)) {
+							for _, r3 := range liveRefs(bo) {
+								if iff, ok := r3.(*ssa.If); ok {
+									if bo.Op == token.NEQ {
+										start = iff.Block().Succs[1]
+									} else {
+										start = iff.Block().Succs[0]
+									}
+								}
+							}
+						}
+					}
+				}
+				if start == nil {
+					start = ex.Block()
+				}
+				missing := ""
+				var missPos token.Pos
+				for _, m := range []string{"Type", "Inspect", "True"} {
+					stop := map[*ssa.BasicBlock]bool{}
+					for _, b := range printBlocks[m] {
+						stop[b] = true
+					}
+					seen := map[*ssa.BasicBlock]bool{}
+					var walk func(b *ssa.BasicBlock)
+					walk = func(b *ssa.BasicBlock) {
+						if seen[b] || stop[b] || missing != "" {
+							return
+						}
+						seen[b] = true
+						for _, ins := range b.Instrs {
+							if c, ok := ins.(*ssa.Call); ok && c.Call.StaticCallee() != nil && c.Call.StaticCallee().String() == "os.Exit" {
+								missing, missPos = m, c.Pos()
+								return
+							}
+						}
+						if ret, ok := terminator(b).(*ssa.Return); ok {
+							missing, missPos = m, ret.Pos()
+							return
+						}
+						for _, sc := range b.Succs {
+							walk(sc)
+						}
+					}
+					walk(start)
+				}
+				if missing != "" {
+					r.Fail(key, p.Pos(missPos), "after Execute returned a result the command can end here without having printed "+missing+"() of that result: the driver then says less than Execute did (the type, printed value and truth of the result are what it is there to report)")
+				} else {
+					r.OkNT(key, p.Pos(ex.Pos()), "every path from the successful Execute to the end of the command passes the print of Type(), Inspect() and True()")
+				}
+			}
+		}
 		// error path: an Execute error is reported and ends the command
 		errReported := false
 		for _, ref := range liveRefs(ex) {
